@@ -751,8 +751,18 @@ def t_cdist(interp, a, b, p=2.0, compute_mode="use_mm_for_euclid_dist_if_necessa
 
 @prim("torch.topk")
 def t_topk(interp, t, k=None, dim=-1, largest=True, sorted=True):
-    interp.cx.oblige("prim.topk.k_in_range", z3.And(0 <= lift(k), lift(k) <= lift(t.shape_l[-1])), kind="prim")
-    sh = t.shape_l[:-1] + [k]
+    rank = len(t.shape_l)
+    if not isinstance(dim, int) or isinstance(dim, bool) or not (-rank <= dim < rank):
+        raise Unsupported("topk along a non-literal or out-of-range dim")
+    d = dim % rank
+    # the bound is on the size of the dimension the selection runs along (torch: "selected index k out of range")
+    interp.cx.oblige("prim.topk.k_in_range", z3.And(0 <= lift(k), lift(k) <= lift(t.shape_l[d])), kind="prim")
+    sh = t.shape_l[:d] + [k] + t.shape_l[d + 1:]
+    if d != rank - 1:  # selection along another dimension: a different function of t (dim is part of the term)
+        sfx = "" if sorted is True else "_unsorted"
+        vals = mk("topk_vals_dim" + sfx, [t, k, largest, d], sh, t.dtype)
+        idx = mk("topk_idx_dim" + sfx, [t, k, largest, d], sh, U("int64", DtypeS))
+        return V.NamedPair((vals, idx), ("values", "indices"))
     if sorted is True:
         vals = mk("topk_vals", [t, k, largest], sh, t.dtype)
         idx = mk("topk_idx", [t, k, largest], sh, U("int64", DtypeS))
